@@ -207,10 +207,103 @@ def ref_in(A, ex):
     return ("bool", member)
 
 
+def args_concat(ex, func):
+    a, b = ex.fresh("CelValue", "a"), ex.fresh("CelValue", "b")
+    for v in (a, b):
+        ex.assume(is_variant(ex, v, "List"))
+    ex.notes.update(a=a, b=b)
+    return [a, b]
+
+
+def seq_len(A, seq):
+    if isinstance(seq.length, int):
+        return seq.length
+    for k in range(LIST_BOUND + 1):
+        if A.ask(seq.length == k):
+            return k
+    raise engine.PathEnd("infeasible")
+
+
+def check_concat(res, V):
+    ex = res.ex
+    if res.outcome == "panic":
+        V.check(ex, "returns an error value instead of panicking", False, detail=res.msg)
+        return
+    if res.outcome != "return":
+        V.inconclusive.append(f"{res.outcome}: {res.msg}")
+        return
+    ret = res.ret
+    a, b = payload(ex, ex.notes["a"], "List"), payload(ex, ex.notes["b"], "List")
+
+    def ref(A):
+        na, nb = seq_len(A, a), seq_len(A, b)
+        for j in range(na):
+            ex.seq_item(a, j)
+        for j in range(nb):
+            ex.seq_item(b, j)
+        return [x.vid for x in a.items[:na]] + [x.vid for x in b.items[:nb]]
+    for assumed, want in run_reference(ex, ref):
+        V.witness(f"{len(want)} elements")
+        ok = isinstance(ret, VAdt) and isinstance(ret.discr, int) and ex.adt_variants(ret.ty)[ret.discr][0] == "List"
+        got = [getattr(x, "vid", None) for x in ret.fields[ret.discr][0].items] if ok else None
+        V.check(ex, "list + list holds the left elements then the right elements, in order", ok and got == want, assumed, detail=lambda: f"expected {want}, got {ret!r}",
+                scenario=lambda model, want=want: {"kind": "value", "request": {"instrs": [{"op": "Push", "val": {"List": [{"Int": 100 + i} for i in range(seq_len_model(model, a))]}},
+                                                                                             {"op": "Push", "val": {"List": [{"Int": 200 + i} for i in range(seq_len_model(model, b))]}}, {"op": "Add"}], "resolve": True},
+                                                    "expected": {"ok": "List([" + ", ".join([f"Int({100 + i})" for i in range(seq_len_model(model, a))] + [f"Int({200 + i})" for i in range(seq_len_model(model, b))]) + "])"}})
+
+
+def seq_len_model(model, seq):
+    return seq.length if isinstance(seq.length, int) else model.eval(seq.length, model_completion=True).as_long()
+
+
+def args_size(ex, func):
+    this = ex.fresh("CelValue", "this")
+    ex.assume(is_variant(ex, this, "List"))
+    ex.notes.update(this=this)
+    return [this, VSeq("CelValue", 0, [], ex.new_vid())]
+
+
+def check_size(res, V):
+    ex = res.ex
+    if res.outcome == "panic":
+        V.check(ex, "returns an error value instead of panicking", False, detail=res.msg)
+        return
+    if res.outcome != "return":
+        V.inconclusive.append(f"{res.outcome}: {res.msg}")
+        return
+    ret = res.ret
+    seq = payload(ex, ex.notes["this"], "List")
+    for assumed, n in run_reference(ex, lambda A: seq_len(A, seq)):
+        V.witness(f"size {n}")
+        ok = isinstance(ret, VAdt) and isinstance(ret.discr, int) and ex.adt_variants(ret.ty)[ret.discr][0] in ("UInt", "Int")
+        V.check(ex, "size of a list is its element count", (ret.fields[ret.discr][0].bv == n) if ok else False, assumed, detail=lambda: f"size of a {n}-element list: {ret!r}",
+                scenario=lambda model, n=n: {"kind": "eval", "request": {"programs": [["main", "l.size()"]], "run": ["main"], "params": {"l": list(range(n))}}, "expected": {"ok": f"UInt({n})"}})
+
+
+def entry_add(P):
+    c = [f for f in P.trait_impls.get(("CelValue", "Add", "add"), [])]
+    if len(c) != 1:
+        raise KeyError("<CelValue as Add>::add")
+    return c[0]
+
+
+def entry_size(P):
+    c = [f for f in P.free.get("dispatch", []) if f.name.startswith("size::")]
+    if len(c) != 1:
+        raise KeyError("size::methods::dispatch")
+    return c[0]
+
+
 TARGETS = [
     dict(name="val_index", props=["C06", "C08", "C01"], func="index", self_ty="CelValue", cfg=VAL_CFG, make_args=args_index, check=check_value(ref_index, "index"),
          what="l[i] for lists of 0..=3 elements and every int / uint / other index: i-th element, (size+i)-th for negative i, error outside; m[k]: stored value or an absent-field failure; failing operands propagate",
          bounds={"list_len": f"0..={LIST_BOUND}", "index": "all i64 / all u64 / every other kind"}),
+    dict(name="val_concat_list", props=["C06", "C01"], func=entry_add, cfg=VAL_CFG, make_args=args_concat, check=check_concat,
+         what="l1 + l2 for lists of 0..=3 elements each: the elements of l1 then those of l2, in order",
+         bounds={"list_len": f"0..={LIST_BOUND} each"}),
+    dict(name="val_size_list", props=["C06", "C01"], func=entry_size, cfg=VAL_CFG, make_args=args_size, check=check_size,
+         what="l.size() for lists of 0..=3 elements: the element count (through the generated dispatcher)",
+         bounds={"list_len": f"0..={LIST_BOUND}"}),
     dict(name="val_in_list", props=["C06", "C01"], func="in_", self_ty="CelValue", cfg=VAL_CFG, make_args=args_in, check=check_value(ref_in, "in"),
          what="x in l for lists of 0..=3 elements: true iff some element equals x (equality uninterpreted); failing operands propagate",
          bounds={"list_len": f"0..={LIST_BOUND}"}),
